@@ -84,7 +84,9 @@ def make_loop_case(index, rng, tier):
         t += rng.uniform(0.05, 1.0)
     return {"family": "loop", "kind": rng.choice(["sync", "gthread", "gevent", "eventlet"]), "keepalive": rng.choice([0, 1, 2]),
             "threads": rng.randrange(1, 3), "hostile": hostile, "cfg": rng.choice([{}, {}, {"limit_request_line": 64}, {"limit_request_fields": 3}]),
-            "buggify": {"pyticks": rng.randrange(3) == 0, "short_recv": rng.randrange(3) == 0, "accept_econnaborted": rng.randrange(5) == 0}}
+            "buggify": {"pyticks": rng.randrange(3) == 0, "short_recv": rng.randrange(3) == 0, "accept_econnaborted": rng.randrange(5) == 0},
+            # a second listening address: the sync worker then runs its other accept loop (run_for_multiple)
+            "binds": 2 if rng.randrange(4) == 0 else 1}
 
 
 class _LoopMod:
@@ -114,7 +116,7 @@ def run_loop(case, choices):
     kind = case["kind"]
     cfgd = {"timeout": 30, "graceful_timeout": 2, "keepalive": case["keepalive"], "threads": case["threads"], "worker_connections": 10}
     cfgd.update(case["cfg"])
-    w = W.WorkerWorld(sim, kind, cfgd)
+    w = W.WorkerWorld(sim, kind, cfgd, extra_addrs=[("127.0.0.1", 8001)] if case.get("binds", 1) == 2 else ())
     p = w.start_worker()
     hostile = []
     for i, h in enumerate(case["hostile"]):
@@ -130,10 +132,11 @@ def run_loop(case, choices):
             ops.append(["close"])
         else:
             ops.append(["reset"])
-        hostile.append(w.add_client("h%d" % i, ops))
+        hostile.append(w.add_client("h%d" % i, ops, addr=w.addrs[i % 2] if len(w.addrs) > 1 else None))
     t_f = max(h["t"] for h in case["hostile"]) + 1.0
     finals = [w.add_client("f%d" % i, [["wait", round(t_f + 0.4 * i, 2)], ["connect"],
-                                       ["send", "GET /a HTTP/1.1\r\nHost: f\r\nConnection: close\r\n\r\n"], ["recv", 20.0]]) for i in range(2)]
+                                       ["send", "GET /a HTTP/1.1\r\nHost: f\r\nConnection: close\r\n\r\n"], ["recv", 20.0]],
+                          addr=w.addrs[(i + 1) % 2] if len(w.addrs) > 1 else None) for i in range(2)]
     ctx = lambda: "family=loop kind=%s keepalive=%s threads=%s cfg=%r hostile=%r t=%.2f" % (
         kind, case["keepalive"], case["threads"], case["cfg"],
         [(bsafe(j2b(h["data"]), 80), h["end"], h["t"], h.get("split")) for h in case["hostile"]], sim.now)
